@@ -263,8 +263,10 @@ func (r *Report) add(rule, fn, construct, pos, msg string, ok bool) {
 	r.Counts[rule]++
 }
 
-func (r *Report) OK(rule, fn, construct, pos, msg string)   { r.add(rule, fn, construct, pos, msg, true) }
-func (r *Report) Fail(rule, fn, construct, pos, msg string) { r.add(rule, fn, construct, pos, msg, false) }
+func (r *Report) OK(rule, fn, construct, pos, msg string) { r.add(rule, fn, construct, pos, msg, true) }
+func (r *Report) Fail(rule, fn, construct, pos, msg string) {
+	r.add(rule, fn, construct, pos, msg, false)
+}
 func (r *Report) Check(cond bool, rule, fn, construct, pos, msg string) bool {
 	r.add(rule, fn, construct, pos, msg, cond)
 	return cond
